@@ -7,12 +7,13 @@ HOOK = [("myth_create_join_various_arg * meta_arg = meta_arg_;",
 MUL = [("a * id_stride", "verif_mul(a, id_stride, 0)", 1), ("a * func_stride", "verif_mul(a, func_stride, 1)", 1),
        ("a * arg_stride", "verif_mul(a, arg_stride, 2)", 1), ("a * result_stride", "verif_mul(a, result_stride, 3)", 1),
        ("a * attr_stride", "verif_mul(a, attr_stride, 4)", 1)]
-THREADS = ["myth_create_ex_body/create_contract", "myth_join_body/join_contract"]
+THREADS = ["verif_create_c/create_contract", "verif_join_c/join_contract"]
+THREAD_STUBS = ["myth_create_ex_body:verif_create_stub", "myth_join_body:verif_join_stub"]
 FP = ["myth_create_join_various_ex_aux.function_pointer_call.1/F_watch,F_other"]
 def aux_job(name, part, **kw):
     d = list(kw.pop("defines", [])) + ["-DPART=%d" % part]
-    return Job(name, TU, "h_aux", rec=["myth_create_join_various_ex_aux/aux_contract"], replace=THREADS, restrict_fp=FP,
-               defines=d, fuc=["myth_create_join_various_ex_aux"], timeout=200, mem_gb=4, **kw)
+    return Job(name, TU, "h_aux", rec=["myth_create_join_various_ex_aux/aux_contract"], replace=THREADS, replace_calls=THREAD_STUBS, restrict_fp=FP,
+               defines=d, fuc=["myth_create_join_various_ex_aux"], timeout=kw.pop("timeout", 600), mem_gb=4, **kw)
 JOBS = [
   aux_job("c17.aux.leaf", 1, rewrites=HOOK + MUL,
       note="base case of the induction (--enforce-contract-rec): range of one item, any item number, any strides; i*stride is an "
